@@ -32,6 +32,11 @@ type c05Attrs struct {
 	EnvFiles  []string          `json:"env_files,omitempty"`     // relative
 	VolLong   bool              `json:"volumes_long_syntax,omitempty"`
 	LabelList bool              `json:"labels_as_list,omitempty"`
+	// tags of the override rules, meaningful on an extending service: `attr: !reset null` drops whatever was
+	// inherited for attr, `!override` replaces the inherited value wholesale instead of merging
+	Reset          []string `json:"reset,omitempty"` // subset of image user cap_add labels command dns
+	OverrideCap    bool     `json:"override_cap_add,omitempty"`
+	OverrideLabels bool     `json:"override_labels,omitempty"`
 }
 
 type c05Svc struct {
@@ -186,6 +191,37 @@ func genC05(r *zsimrt.Run) *c05Scenario {
 		mains[i], mains[j] = mains[j], mains[i]
 	}
 	sc.Svcs = append(all, mains...)
+	dotted := r.Chance("dotted-names", 1, 4)
+	for i := range sc.Svcs {
+		s := &sc.Svcs[i]
+		if dotted && s.File == sc.Main {
+			// dots are legal in service names (and are escaped in tree paths)
+			old := s.Name
+			s.Name = strings.Replace(old, "_", ".", 1)
+			for j := range sc.Svcs {
+				if sc.Svcs[j].File == sc.Main && sc.Svcs[j].ExtFile == "" && sc.Svcs[j].ExtSvc == old {
+					sc.Svcs[j].ExtSvc = s.Name
+				}
+			}
+		}
+	}
+	for i := range sc.Svcs {
+		s := &sc.Svcs[i]
+		if s.ExtSvc == "" || !r.Chance("tags", 1, 3) {
+			continue
+		}
+		for _, a := range []string{"image", "user", "cap_add", "labels", "command", "dns"} {
+			if r.Chance("reset-"+a, 1, 5) {
+				s.Attrs.Reset = append(s.Attrs.Reset, a)
+			}
+		}
+		if s.Attrs.CapAdd != nil && !contains(s.Attrs.Reset, "cap_add") && r.Chance("override-cap", 1, 2) {
+			s.Attrs.OverrideCap = true
+		}
+		if s.Attrs.Labels != nil && !s.Attrs.LabelList && !contains(s.Attrs.Reset, "labels") && r.Chance("override-labels", 1, 2) {
+			s.Attrs.OverrideLabels = true
+		}
+	}
 	sc.KeyPerm = r.Chance("keyperm", 1, 2)
 	sc.ExtraSeed = uint64(1 + r.Draw("extra-seed", 1<<30))
 	if r.Chance("extras", 1, 2) {
@@ -328,6 +364,15 @@ func (sc *c05Scenario) layout(perm func(int) []int) *Layout {
 		if a.EnvFiles != nil {
 			y.Set("env_file", StrSeq(a.EnvFiles...))
 		}
+		if a.OverrideCap && y.Get("cap_add") != nil {
+			y.Get("cap_add").Tag = "!override"
+		}
+		if a.OverrideLabels && y.Get("labels") != nil {
+			y.Get("labels").Tag = "!override"
+		}
+		for _, ra := range a.Reset {
+			y.Set(ra, &Y{S: "null", Raw: true, Tag: "!reset"})
+		}
 		if s.ExtSvc != "" {
 			switch s.ExtForm {
 			case "short":
@@ -422,6 +467,29 @@ func (sc *c05Scenario) resolve(file, name string, depth int) *c05Val {
 	}
 	dir := path.Dir(s.File)
 	a := s.Attrs
+	// tags first: what is reset is neither inherited nor set locally; what is overridden is not merged
+	for _, ra := range a.Reset {
+		switch ra {
+		case "image":
+			v.Image, a.Image = "", ""
+		case "user":
+			v.User, a.User = "", ""
+		case "cap_add":
+			v.CapAdd, a.CapAdd = nil, nil
+		case "labels":
+			v.Labels, a.Labels = map[string]string{}, nil
+		case "command":
+			v.Command, a.Command = nil, nil
+		case "dns":
+			v.DNS, a.DNS = nil, nil
+		}
+	}
+	if a.OverrideCap && a.CapAdd != nil {
+		v.CapAdd = nil
+	}
+	if a.OverrideLabels && a.Labels != nil {
+		v.Labels = map[string]string{}
+	}
 	if a.Image != "" {
 		v.Image = a.Image
 	}
